@@ -33,7 +33,7 @@ RULE = ("each run draws one or two random System_R (1-5 Wannier functions incl. 
         "order actually produced); non-trivial = a permuted listing or a crash or a second save happened")
 PROBES = ["loads_checked", "listing_permuted", "second_save", "crash_fired", "crash_between_files", "crash_mid_file",
           "load_after_crash_raised", "load_after_crash_returned", "resave_after_crash", "odd_num_wann", "structure_arrays",
-          "pointgroup_nontrivial", "non_periodic_direction", "bands_compared"]
+          "pointgroup_nontrivial", "non_periodic_direction", "bands_compared", "berry_compared"]
 REAL = ["System_R.to_npz / from_npz / load_npz", "PointGroup.as_dict / PointGroup(dictionary=...)", "Rvectors", "numpy npz I/O (zipfile)"]
 STUB = ["directory listing order and file completion (SimDisk over real tmpfs files)"]
 ASSUMPTIONS = [
@@ -256,6 +256,18 @@ def _simulate(dec, rec, tier, scr):
                 rec.fire("bands_compared")
                 if np.max(np.abs(e0 - e1)) > 1e-10 * max(1.0, np.max(np.abs(e0))):
                     return finish(("bands_differ", f"band energies of the reloaded system differ by {np.max(np.abs(e0 - e1)):.3e}"))
+                # "... and Berry curvature": depends on the Wannier-centre shifts of the R-vectors, which the matrices
+                # alone do not pin down
+                qb = ["berry_curvature_internal_terms"] + (["berry_curvature"] if "AA" in mats else [])
+                with zoo.quiet():
+                    b0 = wb.evaluate_k(target, k=tuple(k), quantities=qb, return_single_as_dict=True)
+                    b1 = wb.evaluate_k(L, k=tuple(k), quantities=qb, return_single_as_dict=True)
+                rec.fire("berry_compared")
+                for q in qb:
+                    if np.max(np.abs(b0[q] - b1[q])) > 1e-9 * max(1.0, np.max(np.abs(b0[q]))):
+                        return finish(("berry_differs", f"'{q}' of the reloaded system differs by {np.max(np.abs(b0[q] - b1[q])):.3e} "
+                                                        f"although lattice, centres, R-vectors and matrices are identical "
+                                                        f"(history {hist_kind}, listing {disk.listing})"))
             except Exception as e:
                 return finish(("reloaded_unusable", f"evaluate_k on the reloaded system raised {type(e).__name__}: {e}"))
     finally:
